@@ -141,6 +141,11 @@ def one_case(ctx, cid, rng, idx):
         kw = dict(columns=columns, dtypes=dtypes, metadata=K["metadata"], assembly=K["assembly"],
                   symmetric_upper=symm, h5opts=K["h5opts"], mode="w")
         inp = df.copy()
+        idt = [None, None, np.int32, np.int16, np.int8, np.uint8, np.uint16, np.uint32][int(rng.integers(8))]
+        if idt is not None and n <= np.iinfo(idt).max and form != "arrayloader":
+            inp["bin1_id"] = inp["bin1_id"].astype(idt)
+            inp["bin2_id"] = inp["bin2_id"].astype(idt)
+            c.feature(f"input-id-dtype:{np.dtype(idt).name}")
         if form == "df_sorted":
             pixels = inp
         elif form == "df_shuffled":
